@@ -17,7 +17,10 @@ so parsing and `sort_records` are inside the tie):
       lines through line_to_seq_feature, hand-made edge annotations
 Direct predicates on the real outputs (no model involved):
   inverse maps, pointwise sequences, ORF start vs CDS, on-disk == fully parsed for every key
-  under random access orders, write -> parse round trip.
+  under random-with-repeats / forward / reverse access orders, write -> parse round trip.
+Every 3rd annotation file holds non-ASCII (multi-byte UTF-8) text: `##` comment at the top, a
+`note "…"` attribute on some records, gene_name of some genes (`add_nonascii`); the files are written
+as UTF-8 (the on-disk reader decodes UTF-8, the parser opens in text mode = UTF-8 here).
 """
 from __future__ import annotations
 import io
@@ -90,13 +93,19 @@ class Anno:
         self.genes = []
         self.chroms = {}
         self.header = []
+        self.nonascii = []       # placements of non-ASCII text: 'comment', 'note', 'gene_name'
+        self.na_notes = {}       # index of the record line (header excluded) -> note text
 
     def desc(self, full=True):
         g = self.gtf_text()
         if not full and len(g) > 3000:
             return {'style': self.style, 'gtf_head': g[:1500], 'gtf_bytes': len(g)}
-        return {'style': self.style, 'gtf': g,
-                'genome': {k: v for k, v in self.chroms.items()}}
+        d = {'style': self.style, 'gtf': g,
+             'genome': {k: v for k, v in self.chroms.items()}}
+        if self.nonascii:
+            d['nonascii'] = list(self.nonascii)
+            d['gtf_encoding'] = 'utf-8'
+        return d
 
     # -- own GTF writer
     def gtf_text(self):
@@ -154,7 +163,14 @@ class Anno:
                 for typ, s, e, fr, a in recs:
                     lines.append('\t'.join([g.chrom, 'HAVANA', typ, str(s + 1), str(e), '.',
                                             g.strand, fr, a]))
+        nh = len(self.header)
+        for k, note in self.na_notes.items():       # an attribute the loaders do not keep
+            if nh + k < len(lines):
+                lines[nh + k] += f' note "{note}";'
         return '\n'.join(lines) + '\n'
+
+    def n_record_lines(self):
+        return self.gtf_text().count('\n') - len(self.header)
 
     def fasta_text(self):
         out = []
@@ -275,6 +291,43 @@ def gen_annotation(rng, ngenes=None, case=0):
     return a
 
 
+# non-ASCII text (UTF-8: 2, 3 and 4 bytes per character; no white space, quote or separator)
+NA_WORDS = ['Müller', 'größe', 'café', "5′-UTR", 'α-Untereinheit', '遺伝子', 'Ångström', 'naïve',
+            '🧬', 'β2′', 'señal', 'Łódź', '𝛼chain']
+NA_NAME = ['ä', 'ö', 'ü', 'ß', 'é', '′', 'α', '子', '🧬', 'Å']
+
+
+def add_nonascii(a: 'Anno', rng):
+    """put non-ASCII (multi-byte UTF-8) text into the annotation file: a `##` comment at the top,
+    a `note "…"` attribute (not kept by the loaders) on some records, a gene_name (kept) with an
+    umlaut / prime / CJK / 4-byte character.  One or more placements; the models are unchanged but
+    for gene_name, the byte offsets of every later record are no longer the character offsets."""
+    where = [w for w in ('comment', 'note', 'gene_name') if rng.random() < 0.55]
+    if not where:
+        where = [rng.choice(['comment', 'note', 'gene_name'])]
+    a._gtf = None
+    if 'comment' in where:
+        extra = ['##contact: ' + ' '.join(rng.sample(NA_WORDS, rng.randint(1, 4)))]
+        if rng.random() < 0.4:
+            extra.append('#!note ' + rng.choice(NA_WORDS) * rng.randint(1, 3))
+        a.header = extra + a.header if rng.random() < 0.5 else a.header + extra
+    if 'gene_name' in where:
+        # the first gene always (every later record shifts), each other gene with p = 0.4
+        for gi, g in enumerate(a.genes):
+            if gi == 0 or rng.random() < 0.4:
+                c = rng.choice(NA_NAME)
+                g.name = rng.choice([f'GN{c}{gi}', f'{c}GN{gi}', f'GN{gi}{c}', f'G{c}{c}N{gi}'])
+    if 'note' in where:
+        n = a.n_record_lines()
+        a._gtf = None
+        ks = {0} if rng.random() < 0.5 else set()
+        ks |= {rng.randrange(n) for _ in range(rng.randint(1, max(1, n // 6)))}
+        a.na_notes = {k: ' '.join(rng.sample(NA_WORDS, rng.randint(1, 3))) for k in sorted(ks)}
+    a.nonascii = where
+    a._gtf = None
+    return where
+
+
 # ------------------------------------------------------------------ real side
 def ivs(l):
     return ','.join(f'{s}-{e}' for s, e in l) if l else '.'
@@ -324,26 +377,30 @@ class Loaded:
     pass
 
 
-def load_all(a: Anno, tmp: str, rng):
-    """write files, load through the three real readers"""
+def load_all(a: Anno, tmp: str, rng, stage=None):
+    """write files, load through the three real readers; stage[0] names the step that runs"""
+    stage = [None] if stage is None else stage
     from moPepGen import gtf, dna, aa
     from moPepGen.index import IndexDir
     from Bio.Seq import Seq
     L = Loaded()
     gtf_path = os.path.join(tmp, 'anno.gtf')
     fa_path = os.path.join(tmp, 'genome.fa')
-    with open(gtf_path, 'w') as fh:
+    with open(gtf_path, 'w', encoding='utf-8', newline='\n') as fh:
         fh.write(a.gtf_text())
     with open(fa_path, 'w') as fh:
         fh.write(a.fasta_text())
     L.gtf_path = gtf_path
     L.genome = dna.DNASeqDict()
     L.genome.dump_fasta(fa_path)
+    stage[0] = 'fully parsed annotation: GenomicAnnotation.dump_gtf'
     L.full = gtf.GenomicAnnotation()
     L.full.dump_gtf(gtf_path)
     L.items0 = anno_items(L.full)       # as parsed, before check_protein_coding
+    stage[0] = 'on-disk annotation (raw): GenomicAnnotationOnDisk.generate_index'
     L.raw = gtf.GenomicAnnotationOnDisk()
     L.raw.generate_index(gtf_path)
+    stage[0] = None
     # proteome: random subset of the coding transcripts, some with an internal stop
     prot = aa.AminoAcidSeqDict()
     L.prot_keys = {}
@@ -361,13 +418,18 @@ def load_all(a: Anno, tmp: str, rng):
     idx_dir = Path(tmp) / 'index'
     idx_dir.mkdir()
     idx = IndexDir(idx_dir)
+    stage[0] = 'on-disk annotation (idx): IndexDir.save_annotation (index + coding check)'
     saved = idx.save_annotation(Path(gtf_path), source=None, proteome=mk(),
                                 invalid_protein_as_noncoding=True, symlink=False)
     idx.metadata.source = saved.source
+    stage[0] = 'on-disk annotation (idx): IndexDir.load_annotation'
     L.idx = idx.load_annotation()
     L.saved = saved
+    stage[0] = 'fully parsed annotation: check_protein_coding'
     L.full.check_protein_coding(mk(), True)
+    stage[0] = 'on-disk annotation (raw): check_protein_coding (loads every transcript)'
     L.raw.check_protein_coding(mk(), True)
+    stage[0] = None
     return L
 
 
@@ -667,14 +729,20 @@ def compare_models(ctx, a, L, rng, case_id, viol):
     ref_tx = {k: tx_dump(L.full.transcripts[k]) for k in tx_ids}
     ref_g = {k: gene_dump(L.full.genes[k]) for k in gene_ids}
     n = 0
+    na = (' (annotation file with non-ASCII UTF-8 text in: ' + ', '.join(a.nonascii) + ')') \
+        if a.nonascii else ''
     for name, od in (('raw', L.raw), ('idx', L.idx)):
         if sorted(od.transcripts.keys()) != sorted(tx_ids) or \
                 sorted(od.genes.keys()) != sorted(gene_ids):
             viol(f'on-disk ({name}) annotation has a different key set', {})
             continue
-        seq = [rng.choice(tx_ids + gene_ids) for _ in range(3 * (len(tx_ids) + len(gene_ids)))]
-        seq += tx_ids + gene_ids
-        for k in seq:
+        # three access orders on the same object: random with repeats, forward (file order),
+        # reverse (every access seeks backwards); which comes first rotates with the case
+        allk = tx_ids + gene_ids
+        parts = [[rng.choice(allk) for _ in range(3 * len(allk))], allk, allk[::-1]]
+        r = (case_id + (name == 'idx')) % 3
+        seq = [k for part in parts[r:] + parts[:r] for k in part]
+        for pos, k in enumerate(seq):
             n += 1
             try:
                 if k in ref_tx:
@@ -682,17 +750,25 @@ def compare_models(ctx, a, L, rng, case_id, viol):
                 else:
                     got, want = gene_dump(od.genes[k]), ref_g[k]
             except Exception as e:      # noqa
-                viol(f'on-disk ({name}) access raised {type(e).__name__}', {'key': k})
+                viol(f'on-disk ({name}) access raised {type(e).__name__}: {str(e)[:200]}' + na,
+                     {'key': k, 'access_no': pos, 'accesses': seq[:pos + 1],
+                      'nonascii': list(a.nonascii)})
                 break
             if got != want:
                 diff = [f for f in want if want[f] != got.get(f)]
-                viol(f'on-disk ({name}) model differs from the fully parsed model',
+                viol(f'on-disk ({name}) model differs from the fully parsed model' + na,
                      {'key': k, 'fields': diff, 'ondisk': {f: got.get(f) for f in diff},
-                      'full': {f: want[f] for f in diff}})
+                      'full': {f: want[f] for f in diff}, 'access_no': pos,
+                      'accesses': seq[:pos + 1], 'nonascii': list(a.nonascii)})
                 break
     if L.full.source != L.raw.source:
         ctx.count('models', 'anno_source_differs')
     ctx.count('models', 'accesses', n)
+    if a.nonascii:
+        ctx.count('models', 'nonascii_annotations')
+        ctx.count('models', 'nonascii_accesses', n)
+        for w in a.nonascii:
+            ctx.count('models', 'nonascii_in_' + w)
     return n
 
 
@@ -1207,17 +1283,22 @@ WHAT.update(GTF_WHAT)
 def process_case(ctx, case_id, S, a, rng, do_cache=True):
     tmp = tempfile.mkdtemp(prefix='c11_')
     L = None
+    stage = [None]
     try:
-        L = load_all(a, tmp, rng)
+        L = load_all(a, tmp, rng, stage)
         desc = a.desc()
 
         def viol(what, extra, key=None):
             d = dict(desc)
             d.update(extra)
             ctx.add_violation(what, d, finding_key=key)
-        run_annotation(ctx, a, L, S, case_id, rng)
+        # the on-disk clause first (own generator), so that a failing on-disk access is reported
+        # as such and not as a crash of a coordinate function that happened to go through it
+        stage[0] = 'on-disk annotation == fully parsed annotation, every key'
         check_parse(a, L, viol)
-        compare_models(ctx, a, L, rng, case_id, viol)
+        compare_models(ctx, a, L, ctx.rng('models', case_id), case_id, viol)
+        stage[0] = None
+        run_annotation(ctx, a, L, S, case_id, rng)
         roundtrip(ctx, a, L, viol)
         gtf_codec(ctx, a, L, S, case_id, viol)
         if do_cache:
@@ -1233,8 +1314,10 @@ def process_case(ctx, case_id, S, a, rng, do_cache=True):
             d.update({'exception': f'{type(e).__name__}: {e}',
                       'where': f'{os.path.relpath(last.filename, common.REPO)}:{last.lineno}',
                       'called_from': f'{os.path.basename(tb[0].filename)}:{tb[0].lineno}'})
-            ctx.add_violation('the real code raised on a valid annotation (load / access / '
-                              'round trip)', d)
+            na = (' (annotation file with non-ASCII UTF-8 text in: ' + ', '.join(a.nonascii)
+                  + ')') if a.nonascii else ''
+            ctx.add_violation('the real code raised on a valid annotation ('
+                              + (stage[0] or 'access / round trip') + ')' + na, d)
         else:
             raise
     finally:
@@ -1249,7 +1332,8 @@ def flush(ctx, S, annos):
         a = annos.get(o[0])
         if a is not None:
             d.update(a.desc(full=False))
-            d['regenerate'] = 'harness.c11.gen_annotation(ctx.rng("anno", case), case=case)'
+            d['regenerate'] = 'harness.c11.gen_annotation(ctx.rng("anno", case), case=case)' + (
+                '; harness.c11.add_nonascii(a, ctx.rng("nonascii", case))' if a.nonascii else '')
         return d
     for s in STREAMS:
         if S[s]:
@@ -1306,7 +1390,12 @@ def run(ctx: common.Ctx):
         '1-base introns, 1-4 isoforms sharing/altering exons, CDS with frames, GENCODE UTR / '
         'ENSEMBL five|three_prime_utr, start/stop codons, Selenocysteine, NF tags, record order '
         'tx/genomic/reverse/shuffled, header comments) written by the harness writer + random '
-        'genome; EVERY genomic position of every gene +-3 and every gene/transcript index +3 is '
+        'genome; every 3rd annotation file (145 of 500 quick) carries non-ASCII multi-byte UTF-8 '
+        'text (2/3/4-byte characters) in one or more of: a ## comment at the top, a note "…" '
+        'attribute on some records (not kept), the gene_name of the first and some other genes '
+        '(kept), so that byte offsets differ from character offsets; on-disk (raw and idx) == fully '
+        'parsed for every key in random-with-repeats / forward / reverse order (rotated per case) '
+        'on the same object; EVERY genomic position of every gene +-3 and every gene/transcript index +3 is '
         'queried for every coordinate function (exhaustive per annotation); cache histories of '
         '10-60 accesses with bound 1..10 and, in 35% of them, unknown keys; non-trivial = a batch '
         'result that contains both mapped values and at least one rejection class; GTF codec: '
@@ -1327,6 +1416,9 @@ def run(ctx: common.Ctx):
         rng = ctx.rng('anno', i)
         big = (i % 12 == 5)
         a = gen_annotation(rng, ngenes=rng.randint(11, 14) if big else None, case=i)
+        if i % 3 == 2 and i % 24 != 17:
+            # every 3rd annotation (half of the big ones): non-ASCII text in the file
+            add_nonascii(a, ctx.rng('nonascii', i))
         annos[i] = a
         ctx.count('anno', 'annotations')
         ctx.count('anno', 'genes', len(a.genes))
@@ -1371,11 +1463,36 @@ def replay(ctx, data):
     try:
         from moPepGen import gtf
         p = os.path.join(tmp, 'a.gtf')
-        open(p, 'w').write(gtf_text)
+        open(p, 'w', encoding='utf-8', newline='\n').write(gtf_text)
         full = gtf.GenomicAnnotation()
         full.dump_gtf(p)
         print(f'parsed {len(full.genes)} genes, {len(full.transcripts)} transcripts; '
               f'protocol_line={rp.get("protocol_line")} real={rp.get("real")} model={rp.get("model")}')
+        # the on-disk clause on the stored file: every key, forward then reverse
+        od = gtf.GenomicAnnotationOnDisk()
+        od.generate_index(p)
+        keys = [('tx', k) for k in full.transcripts] + [('gene', k) for k in full.genes]
+        bad = 0
+        for kind, k in keys + keys[::-1]:
+            try:
+                if kind == 'tx':
+                    # no proteome in a replay file: the coding flag (None vs False before
+                    # check_protein_coding) is left out
+                    x, y = tx_dump(od.transcripts[k]), tx_dump(full.transcripts[k])
+                    x.pop('is_protein_coding'); y.pop('is_protein_coding')
+                    same = x == y
+                else:
+                    same = gene_dump(od.genes[k]) == gene_dump(full.genes[k])
+                msg = 'differs from the fully parsed model'
+            except Exception as e:      # noqa
+                same, msg = False, f'raised {type(e).__name__}: {e}'
+            if not same:
+                bad += 1
+                if bad <= 5:
+                    print(f'on-disk {kind} {k}: {msg}')
+        print(f'on-disk == fully parsed: {2 * len(keys) - bad} of {2 * len(keys)} accesses agree')
+        od.handle.close()
+        od.handle = None
     finally:
         shutil.rmtree(tmp, ignore_errors=True)
     return 1
